@@ -383,6 +383,64 @@ macro_rules! a2d {
     }};
 }
 
+// Part C: x and y query arrays of different storage kinds (each cast must still relabel identical types)
+macro_rules! c2d {
+    ($rep:ident, $T:ty, $sx:ident, $sy:ident, $D:ty, $dname:literal) => {{
+        fn run(rep: &mut Report, rev: bool) {
+            let id = Id {
+                interp: "2d",
+                t: stringify!($T),
+                storage: concat!(stringify!($sx), "+", stringify!($sy)),
+                d: $dname,
+                dq: if rev { "Ix1rev" } else { "Ix1" },
+            };
+            let tys = (
+                tn::<<Ix1 as DimAdd<<<$D as Dimension>::Smaller as Dimension>::Smaller>>::Output>(),
+                tn::<<$D as Dimension>::Smaller>(),
+            );
+            let before = cast_mismatches().len();
+            let res = catch_unwind(AssertUnwindSafe(|| {
+                let shape = data_shape(<$D as Dimension>::NDIM, 2);
+                let base: Array<$T, $D> = make(&shape, <$T as Elem>::datum);
+                let xbase: Array<$T, Ix1> = make(&[3], <$T as Elem>::qx);
+                let ybase: Array<$T, Ix1> = make(&[3], <$T as Elem>::qy);
+                let xlaid = relayout(&xbase, rev);
+                let ylaid = relayout(&ybase, rev);
+                storage!(owned, base => data);
+                storage!($sx, xlaid => xs);
+                storage!($sy, ylaid => ys);
+                let interp = Interp2DBuilder::new(data).build().expect("build");
+                let start = cast_count();
+                let c0 = cast_count();
+                let fast = interp.interp_array(&xs, &ys).expect("fast path");
+                let c1 = cast_count();
+                let xs_dyn = xs.clone().into_dyn();
+                let ys_dyn = ys.clone().into_dyn();
+                let c2 = cast_count();
+                let general = interp.interp_array(&xs_dyn, &ys_dyn).expect("general path");
+                let c3 = cast_count();
+                let mut singles = Stack::new(&[3]);
+                for (&x, &y) in xbase.iter().zip(ybase.iter()) {
+                    let one = interp.interp(x, y).expect("single query");
+                    singles.push(flat(one.view().into_dyn()));
+                }
+                let end = cast_count();
+                Outcome {
+                    delta: c1 - c0,
+                    general_delta: c3 - c2,
+                    stray_delta: (end - start) - (c1 - c0) - (c3 - c2),
+                    batch: flat(fast.view().into_dyn()),
+                    general: Some(flat(general.view().into_dyn())),
+                    singles: singles.finish(),
+                }
+            }));
+            rep.record(id, Some(tys), 3, before, res);
+        }
+        run($rep, false);
+        run($rep, true);
+    }};
+}
+
 macro_rules! b1d {
     ($rep:ident, $Dq:ty, $dqname:literal, $qshape:expr, $D:ty, $dname:literal) => {{
         fn run(rep: &mut Report) {
@@ -534,12 +592,24 @@ fn part_b_2d(rep: &mut Report) {
     each_dq!(b2d, each_d_2d, rep);
 }
 
+fn part_c_2d(rep: &mut Report) {
+    // combinations whose failure mode under a wrong cast is a caught panic come first
+    c2d!(rep, f64, owned, view, Ix2, "Ix2");
+    c2d!(rep, f64, owned, view, Ix3, "Ix3");
+    c2d!(rep, f64, owned, view, IxDyn, "IxDyn");
+    c2d!(rep, f64, view, owned, Ix3, "Ix3");
+    c2d!(rep, f64, view, shared, IxDyn, "IxDyn");
+    c2d!(rep, f32, owned, shared, Ix2, "Ix2");
+    c2d!(rep, f64, shared, owned, Ix3, "Ix3");
+}
+
 pub fn main() {
     let mut rep = Report::default();
     part_a_1d(&mut rep);
     part_a_2d(&mut rep);
     part_b_1d(&mut rep);
     part_b_2d(&mut rep);
+    part_c_2d(&mut rep);
     let mismatches = cast_mismatches();
     println!("mismatches={}", mismatches.len());
     for m in &mismatches {
